@@ -140,12 +140,15 @@ def run_case(case, ctx):
     ls = float(gen.choice(rs, [0.0, 0.0, 0.1, 1.0])) * u2 if solver != "active_set" else 0.0
     lr = float(gen.choice(rs, [0.0, 0.0, 0.1, 1.0])) * u2 if solver != "active_set" else 0.0
     start = gen.choice(rs, ["cold", "cold", "warm-random", "warm-zero", "warm-solution"] if solver != "active_set" else
-                       ["cold", "warm-random", "warm-random", "warm-random", "warm-zero", "warm-solution"])
+                       ["cold", "warm-random", "warm-random", "warm-random", "warm-zero", "warm-solution", "warm-far"])
     Xref = reference(UtU / u2, UtM / u2, ls / u2, lr / u2)   # the reference is computed in unit scale (same minimiser)
     if start == "cold":
         x0 = None
     elif start == "warm-random":
         x0 = rs.uniform(0, 2, (n, k))
+    elif start == "warm-far":
+        # a previous solution in other (raw) units: far from the optimum, some variables at zero that have to enter
+        x0 = rs.uniform(0, 2, (n, k)) * float(gen.choice(rs, [1e4, 1e6, 1e8])) * (rs.uniform(size=(n, k)) < 0.6)
     elif start == "warm-zero":
         x0 = np.zeros((n, k))
     else:
@@ -183,7 +186,15 @@ def run_case(case, ctx):
             # "run to convergence": stop at an exact fixed point (the library's own relative criterion never fires when
             # the very first sweep already changes nothing, e.g. a warm start at the solution)
             sweeps[0] += 1
-            return bool(step_sq <= 1e-30 * (1.0 + float(np.sum(V * V))))
+            if bool(step_sq <= 1e-30 * (1.0 + float(np.sum(V * V)))):
+                return True
+            # documented: the sweeps end when the callback returns True; a monitor's other return values (a count, the step it
+            # was given, a record) do not end them
+            return monitor_value(sweeps[0], step_sq)
+        mv = gen.choice(rs, ["false", "none", "count", "step", "record"])
+        ctx.count("hals_callback_returns/%s" % mv)
+        monitor_value = {"false": lambda c, s_: False, "none": lambda c, s_: None, "count": lambda c, s_: c, "step": lambda c, s_: float(s_) + 1.0,
+                         "record": lambda c, s_: [c, s_]}[mv]
         if shared:
             class _Abort(Exception):
                 pass
